@@ -379,3 +379,289 @@ pub fn well_scoped(p: &Program) -> Program {
     let drop: std::collections::BTreeSet<usize> = em.occs.iter().filter(|o| o.judged && !o.is_decl && o.target.is_none()).filter_map(|o| o.probe).collect();
     without_probes(p, &drop)
 }
+
+// ---------------------------------------------------------------------------
+// declaration-structure programs (C18, C19)
+
+fn field(ty: Ty, name: &str, init: Option<E>, doc: &[&str], blank: bool) -> BI {
+    BI::Field { doc: doc.iter().map(|s| s.to_string()).collect(), blank, ty, name: name.into(), init }
+}
+
+/// Every declaration form with its optional parts present and absent.
+pub fn declaration_variants() -> Vec<Vec<Item>> {
+    let mut out: Vec<Vec<Item>> = Vec::new();
+    let base = Item::Class {
+        doc: vec![],
+        blank: false,
+        name: "P".into(),
+        targs: vec![TArg { ty: Ty::Int, name: "a".into(), default: None }, TArg { ty: Ty::Str, name: "b".into(), default: Some(E::Str("d".into())) }],
+        parents: vec![],
+        body: Some(vec![field(Ty::Int, "f", Some(id("a")), &[], false), field(Ty::List(Box::new(Ty::Int)), "g", None, &[], false)]),
+    };
+    // classes
+    for targs in 0..3usize {
+        for parent in [false, true] {
+            for body in 0..3usize {
+                let t: Vec<TArg> = (0..targs).map(|i| TArg { ty: if i == 0 { Ty::Int } else { Ty::Bits(4) }, name: format!("t{i}"), default: if i == 1 { Some(int(3)) } else { None } }).collect();
+                let b = match body {
+                    0 => None,
+                    1 => Some(vec![]),
+                    _ => Some(vec![
+                        field(Ty::Int, "h", Some(int(1)), &[], false),
+                        BI::Defvar { name: "v".into(), value: int(2) },
+                        field(Ty::Class("P".into()), "k", None, &[], false),
+                        BI::Assert { cond: E::Bool(true), msg: E::Str("m".into()) },
+                    ]),
+                };
+                let mut items = vec![base.clone()];
+                let mut b2 = b.clone();
+                if parent {
+                    if let Some(v) = b2.as_mut() {
+                        v.push(BI::Let { name: "f".into(), value: int(9) });
+                    }
+                }
+                items.push(Item::Class {
+                    doc: vec![],
+                    blank: false,
+                    name: "C".into(),
+                    targs: t,
+                    parents: if parent { vec![CRef::with("P", vec![int(1)])] } else { vec![] },
+                    body: b2,
+                });
+                out.push(items);
+            }
+        }
+    }
+    // defs: named / anonymous, with and without parent and body
+    for named in [true, false] {
+        for parent in [false, true] {
+            for body in 0..3usize {
+                let b = match body {
+                    0 => None,
+                    1 => Some(vec![]),
+                    _ => {
+                        let mut v = vec![field(Ty::Str, "s", Some(E::Str("x".into())), &[], false)];
+                        if parent {
+                            v.push(BI::Let { name: "g".into(), value: E::List(vec![int(1)]) });
+                            v.push(BI::Let { name: "f".into(), value: int(2) });
+                        }
+                        Some(v)
+                    }
+                };
+                out.push(vec![
+                    base.clone(),
+                    Item::Def { doc: vec![], blank: false, name: named.then(|| "d".to_string()), parents: if parent { vec![CRef::with("P", vec![int(1), E::Str("z".into())])] } else { vec![] }, body: b },
+                ]);
+            }
+        }
+    }
+    // defsets: empty, with named and anonymous defs, with a class, nested
+    let d = |n: &str| Item::Def { doc: vec![], blank: false, name: Some(n.into()), parents: vec![CRef::with("P", vec![int(1)])], body: None };
+    let anon = Item::Def { doc: vec![], blank: false, name: None, parents: vec![CRef::with("P", vec![int(2)])], body: None };
+    let set = |name: &str, body: Vec<Item>| Item::Defset { ty: Ty::List(Box::new(Ty::Class("P".into()))), name: name.into(), body };
+    out.push(vec![base.clone(), set("S", vec![])]);
+    out.push(vec![base.clone(), set("S", vec![d("m1"), d("m2")])]);
+    out.push(vec![base.clone(), set("S", vec![d("m1"), anon.clone()])]);
+    out.push(vec![base.clone(), set("S", vec![d("m1"), set("T", vec![d("m2")]), d("m3")])]);
+    out.push(vec![base.clone(), set("S", vec![Item::Foreach { var: "i".into(), list: E::List(vec![int(1)]), body: vec![d("m1")], braces: true }, d("m2")]), d("after")]);
+    out.push(vec![base.clone(), set("S", vec![Item::Class { doc: vec![], blank: false, name: "Inner".into(), targs: vec![], parents: vec![], body: None }, d("m1")])]);
+    // multiclasses and defm
+    for targs in 0..3usize {
+        for parent in [false, true] {
+            let t: Vec<TArg> = (0..targs).map(|i| TArg { ty: Ty::Int, name: format!("mt{i}"), default: None }).collect();
+            let mut items = vec![base.clone()];
+            if parent {
+                items.push(Item::Multiclass { doc: vec![], name: "MP".into(), targs: vec![], parents: vec![], body: vec![d("_p")] });
+            }
+            items.push(Item::Multiclass {
+                doc: vec![],
+                name: "M".into(),
+                targs: t,
+                parents: if parent { vec![CRef::plain("MP")] } else { vec![] },
+                body: vec![d("_a"), Item::Defm { name: Some("_b".into()), parents: vec![] }, Item::Foreach { var: "i".into(), list: E::List(vec![int(1)]), body: vec![d("_c")], braces: true }],
+            });
+            items.push(Item::Defm { name: Some("inst".into()), parents: vec![CRef::with("M", (0..targs).map(|i| int(i as i64)).collect())] });
+            items.push(Item::Defm { name: None, parents: vec![CRef::with("M", (0..targs).map(|i| int(i as i64)).collect())] });
+            out.push(items);
+        }
+    }
+    out
+}
+
+/// Wraps `inner` into the block-bearing statement kind `k` (0 = none).
+pub const WRAP_KINDS: usize = 8;
+pub fn wrap_block(k: usize, inner: Vec<Item>) -> Vec<Item> {
+    let first = |v: &Vec<Item>| v.first().cloned().into_iter().collect::<Vec<_>>();
+    match k {
+        0 => inner,
+        1 => vec![Item::Foreach { var: "i".into(), list: E::List(vec![int(1), int(2)]), body: inner, braces: true }],
+        2 => {
+            let one = first(&inner);
+            let mut v = vec![Item::Foreach { var: "i".into(), list: E::List(vec![int(1)]), body: one, braces: false }];
+            v.extend(inner.into_iter().skip(1));
+            v
+        }
+        3 => vec![Item::Let { binds: vec![("f".into(), int(1)), ("g".into(), E::List(vec![]))], body: inner, braces: true }],
+        4 => {
+            let one = first(&inner);
+            let mut v = vec![Item::Let { binds: vec![("f".into(), int(1))], body: one, braces: false }];
+            v.extend(inner.into_iter().skip(1));
+            v
+        }
+        5 => vec![Item::If { cond: E::Bool(true), then: inner, then_braces: true, els: None }],
+        6 => vec![Item::If { cond: E::Bool(false), then: vec![Item::Assert { cond: E::Bool(true), msg: E::Str("t".into()) }], then_braces: true, els: Some(inner) }],
+        _ => {
+            // no else here: after a brace-less `then` holding another `if`, an else would bind to the inner one
+            let one = first(&inner);
+            let mut v = vec![Item::If { cond: E::Bool(true), then: one, then_braces: false, els: None }];
+            v.extend(inner.into_iter().skip(1));
+            v
+        }
+    }
+}
+
+fn contains_toplevel_only(items: &[Item]) -> bool {
+    // multiclasses (and the class the variants depend on) stay at the top level
+    items.iter().any(|i| matches!(i, Item::Multiclass { .. }))
+}
+
+/// Declaration-structure programs: every declaration variant inside every
+/// wrapper path of length <= depth, one- and two-file layouts.
+pub fn structure_programs(depth: usize, mut f: impl FnMut(&Program) -> bool) {
+    let variants = declaration_variants();
+    let mut paths: Vec<Vec<usize>> = vec![vec![]];
+    let mut frontier: Vec<Vec<usize>> = vec![vec![]];
+    for _ in 0..depth {
+        let mut next = Vec::new();
+        for p in &frontier {
+            for k in 1..WRAP_KINDS {
+                let mut q = p.clone();
+                q.push(k);
+                next.push(q);
+            }
+        }
+        paths.extend(next.iter().cloned());
+        frontier = next;
+    }
+    for v in &variants {
+        // the first item (class P) stays at the top; the rest is wrapped
+        let (head, tail) = v.split_at(1);
+        for path in &paths {
+            if !path.is_empty() && contains_toplevel_only(tail) {
+                continue;
+            }
+            let mut body: Vec<Item> = tail.to_vec();
+            for &k in path.iter().rev() {
+                body = wrap_block(k, body);
+            }
+            for layout in 0..2 {
+                let p = if layout == 0 {
+                    let mut all = head.to_vec();
+                    all.extend(body.clone());
+                    all.push(Item::Def { doc: vec![], blank: false, name: Some("last".into()), parents: vec![], body: None });
+                    Program { files: vec![("a.td".into(), all)] }
+                } else {
+                    let mut root = vec![Item::Include("inc.td".into())];
+                    root.extend(body.clone());
+                    let mut inc = head.to_vec();
+                    inc.push(Item::Def { doc: vec![], blank: false, name: Some("inc_def".into()), parents: vec![], body: None });
+                    Program { files: vec![("a.td".into(), root), ("inc.td".into(), inc)] }
+                };
+                if !f(&p) {
+                    return;
+                }
+            }
+        }
+    }
+}
+
+// ---------------------------------------------------------------------------
+// hover / inlay-hint programs (C19)
+
+fn docs(n: usize) -> Vec<String> {
+    (0..n).map(|i| format!("doc line {i} of it")).collect()
+}
+
+/// Programs with doc comments (0..=2 lines, attached or detached by a blank line) on every
+/// declaration kind that can carry them, class references with 0..=3 positional arguments
+/// followed by 0..=1 named ones in every reference position, and field overrides.
+pub fn hover_programs(mut f: impl FnMut(&Program) -> bool) {
+    for doc_lines in 0..3usize {
+        for blank in [false, true] {
+            if blank && doc_lines == 0 {
+                continue;
+            }
+            for positional in 0..4usize {
+                for named in 0..2usize {
+                    if positional + named > 3 {
+                        continue;
+                    }
+                    let d = docs(doc_lines);
+                    let p = Item::Class {
+                        doc: d.clone(),
+                        blank,
+                        name: "P".into(),
+                        targs: vec![
+                            TArg { ty: Ty::Int, name: "a".into(), default: Some(int(0)) },
+                            TArg { ty: Ty::Str, name: "b".into(), default: Some(E::Str("d".into())) },
+                            TArg { ty: Ty::Bits(2), name: "c".into(), default: Some(E::Bits(vec![int(0), int(1)])) },
+                        ],
+                        parents: vec![],
+                        body: Some(vec![
+                            BI::Field { doc: d.clone(), blank, ty: Ty::Int, name: "f".into(), init: Some(id("a")) },
+                            BI::Field { doc: vec![], blank: false, ty: Ty::List(Box::new(Ty::Str)), name: "g".into(), init: Some(E::List(vec![id("b")])) },
+                            BI::Field { doc: docs(1), blank: false, ty: Ty::Bits(2), name: "h".into(), init: Some(id("c")) },
+                        ]),
+                    };
+                    let all_args = [int(1), E::Str("s".into()), E::Bits(vec![int(1), int(0)])];
+                    let names = ["a", "b", "c"];
+                    let args: Vec<E> = all_args[..positional].to_vec();
+                    let named_args: Vec<(String, E)> = (0..named).map(|k| (names[positional + k].to_string(), all_args[positional + k].clone())).collect();
+                    let cref = CRef { name: "P".into(), args: args.clone(), named: named_args.clone() };
+                    let items = vec![
+                        p,
+                        Item::Class {
+                            doc: vec![],
+                            blank: false,
+                            name: "Q".into(),
+                            targs: vec![TArg { ty: Ty::Class("P".into()), name: "pp".into(), default: None }],
+                            parents: vec![cref.clone()],
+                            body: Some(vec![
+                                BI::Let { name: "f".into(), value: int(5) },
+                                BI::Field { doc: vec![], blank: false, ty: Ty::Class("P".into()), name: "inner".into(), init: Some(E::ClassVal("P".into(), args.clone(), named_args.clone())) },
+                                BI::Field { doc: vec![], blank: false, ty: Ty::Int, name: "viaf".into(), init: Some(E::Field(Box::new(id("pp")), "f".into())) },
+                                BI::Let { name: "g".into(), value: E::List(vec![]) },
+                            ]),
+                        },
+                        Item::Def { doc: d.clone(), blank, name: Some("x".into()), parents: vec![cref.clone()], body: Some(vec![BI::Let { name: "h".into(), value: E::Bits(vec![int(1), int(1)]) }]) },
+                        Item::Multiclass {
+                            doc: d.clone(),
+                            name: "M".into(),
+                            targs: vec![TArg { ty: Ty::Int, name: "m".into(), default: None }],
+                            parents: vec![],
+                            body: vec![Item::Def { doc: vec![], blank: false, name: Some("_r".into()), parents: vec![CRef::with("P", vec![id("m")])], body: None }],
+                        },
+                        Item::Defm { name: Some("inst".into()), parents: vec![CRef::with("M", vec![int(1)])] },
+                        Item::Defset { ty: Ty::List(Box::new(Ty::Class("P".into()))), name: "S".into(), body: vec![Item::Def { doc: docs(1), blank: false, name: Some("member".into()), parents: vec![cref.clone()], body: None }] },
+                        Item::Defvar { name: "v".into(), value: E::ClassVal("Q".into(), vec![E::ClassVal("P".into(), args.clone(), named_args.clone())], vec![]) },
+                        Item::Foreach { var: "i".into(), list: E::List(vec![int(1)]), body: vec![Item::Def { doc: vec![], blank: false, name: Some("y".into()), parents: vec![CRef::with("P", vec![id("i")])], body: None }], braces: true },
+                        Item::Defvar { name: "w".into(), value: E::Field(Box::new(id("x")), "h".into()) },
+                        Item::Defvar { name: "u".into(), value: E::List(vec![id("v"), id("S")]) },
+                    ];
+                    for layout in 0..2 {
+                        let prog = if layout == 0 {
+                            Program { files: vec![("a.td".into(), items.clone())] }
+                        } else {
+                            let mut root = vec![Item::Include("inc.td".into())];
+                            root.extend(items[1..].iter().cloned());
+                            Program { files: vec![("a.td".into(), root), ("inc.td".into(), vec![items[0].clone()])] }
+                        };
+                        if !f(&prog) {
+                            return;
+                        }
+                    }
+                }
+            }
+        }
+    }
+}
